@@ -160,3 +160,9 @@ claim('C09', 'SCC analysis of the resolved call graph of erg_parser for depth gu
       '(known finding: none exists), and the CLI runs the parser on the enlarged-stack thread.',
       'Panic-freedom of the enum_unwrap!/unwrap sites on arbitrary token sequences and termination are not decided.',
       'DESIGN.md §3 C09')
+
+claim('C10', 'effect reachability over the resolved call graph from the parser entry points; ADT rule on derived equality of the syntax tree',
+      'Decides (R1) determinism as absence of clocks / RNG / randomly seeded hashers / environment reads / mutable statics in everything reachable from the lexer, parser and '
+      'desugarer, and (R2) that the AST equality through which layout-insensitivity is observed ignores positions (5 known findings: derived PartialEq over Location fields).',
+      'That the layout-preserving rewrites of the property yield the same tree is behaviour of the lexer/parser and is not decided.',
+      'DESIGN.md §3 C10')
